@@ -174,6 +174,36 @@ def rule_n1(chk: Check, ir):
                         "a statement alternative must return exactly what it parsed")
 
 
+def rule_n5(chk: Check, ix: Index, rule_id: str = "N5-previous-token"):
+    """What a statement parses to must not depend on what was handed out before it.  The token buffer's *last* entry is exactly
+    such history: after a raw capture it is a MACRO_PARAM, after a block a DEDENT, at the start of the input nothing.  Reads of it
+    that feed a decision are therefore an inventory reviewed by hand; a new one is reported."""
+    REVIEWED = {
+        ("Tokenizer._next_raw", "position for the end-of-input error only"),
+        ("Tokenizer.is_blank", "drops a NEWLINE that directly follows a NEWLINE: decided under K7-token-filter"),
+        ("Tokenizer.consume_with_macro_params", "start position of the captured block: the colon just consumed"),
+        ("Tokenizer.get_last_non_whitespace_token", "fallback when nothing precedes the position"),
+        ("Tokenizer.diagnose", "the furthest token, for the error message"),
+        ("Tokenizer.report", "trace output only"),
+    }
+    names = {a for a, _ in REVIEWED}
+    n = 0
+    for q, f in sorted(ix.funcs.items()):
+        if f.rel not in (repo.TOKENIZER,):
+            continue
+        for node in own_nodes(f.node):
+            if isinstance(node, ast.Subscript) and norm_stmt(node.value) == "self._tokens" and isinstance(node.ctx, ast.Load) and \
+                    norm_stmt(node.slice) in ("-1", "len(self._tokens) - 1"):
+                n += 1
+                chk.count(rule_id)
+                chk.require(q in names, rule_id, f"{q}:{norm_stmt(node)}", f"{f.rel}:{node.lineno}",
+                            f"`{q}` reads the last token handed out (`{norm_stmt(node)}`) and is not one of the reviewed uses: a decision "
+                            f"taken from it depends on what preceded the statement (after a with-macro block the last token is the "
+                            f"MACRO_PARAM, not a NEWLINE/DEDENT), so the same statement parses differently on its own and after another")
+    chk.units["previous_token_reads"] = n
+    chk.floor(rule_id, 2)
+
+
 def run(chk: Check):
     chk.explanation = (
         "Decides state neutrality at statement end, a necessary condition for parse(A+B) = parse(A) ++ shift(parse(B)): every "
@@ -192,6 +222,7 @@ def run(chk: Check):
     macros.rule_m5(chk, ix)
     rule_counter(chk, ix)
     rule_newline_neutral(chk, ix)
+    rule_n5(chk, ix)
     # the line-continuation flag must not leak into the next logical line (C09 K6); flag-setting actions must not be re-run by
     # re-parsing the same position (C18 W1: a fork through unmemoised rules re-executes the actions on cached tokens)
     from .c09 import rule_k4, rule_k6
